@@ -2,9 +2,29 @@
 
 package tikv
 
-import "github.com/tikv/client-go/v2/internal/apicodec"
+import (
+	"reflect"
+
+	"github.com/tikv/client-go/v2/internal/apicodec"
+)
 
 // VerifNewCodecClient builds the exported CodecClient wrapper around a client with the given codec.
 func VerifNewCodecClient(c Client, codec apicodec.Codec) *CodecClient {
 	return &CodecClient{Client: c, codec: codec}
+}
+
+// VerifWGCount reads the counter of the store's background WaitGroup (high 32 bits of sync.WaitGroup.state) without
+// waiting on it: the hub's Quiesce compares it with the value right after NewKVStore (the two permanent updater
+// goroutines) to know that every spawned background task (secondary commit, cleanup, async pessimistic rollback) is done.
+// Returns -1 if the runtime's WaitGroup layout is not the expected one (the caller then falls back to settling).
+func VerifWGCount(s *KVStore) int {
+	st := reflect.ValueOf(&s.wg).Elem().FieldByName("state")
+	if !st.IsValid() {
+		return -1
+	}
+	v := st.FieldByName("v")
+	if !v.IsValid() || v.Kind() != reflect.Uint64 {
+		return -1
+	}
+	return int(v.Uint() >> 32)
 }
